@@ -505,6 +505,7 @@ func runC14(c *Ctx) {
 	c14PrefixNotPath(c, stPkgs)
 	c14CloseOnce(c, stPkgs)
 	c11ArchiveLastWins(c)
+	c13ViewWrapsArgument(c)
 	ruleDelegateErr(c, "DELEGATE-ERR", stPkgs)
 	if q := c.P.Pkg("private/pkg/storage"); q != nil {
 		c14MatcherNamesake(c, q)
